@@ -31,6 +31,7 @@ Fixpoint denote (e : env) (r : rdesc) : vval :=
 
 Ltac norm := rewrite ?code_app, <- ?app_assoc.
 Ltac bnd := cbv beta iota delta [bind with_stk with_stk_bal vstk vbal vposts vtx vacc].
+Ltac run := simpl; bnd; norm.
 
 (* ---------- BUMP ---------- *)
 Lemma bump_app l x r : bump (List.length l) (l ++ x :: r) = Some (x :: l ++ r).
@@ -256,4 +257,202 @@ Proof.
     rewrite map_app, <- app_assoc. reflexivity.
 Qed.
 End Source.
+
+(* ---------- TakeFromSource ---------- *)
+Lemma exec_take_from_source fb f ma mo stk k b ps tx ac :
+  (forall fa, fb = Some fa -> chk_acc te fa = true) ->
+  exec L (code (gen_take_from_source ve fb) ++ k) (St (XV (VMonetary ma mo) :: XFunding f :: stk) b ps tx ac) =
+  do (r, b1) <- take_from_source e fb f ma mo b; exec L k (St (XFunding r :: stk) b1 ps tx ac).
+Proof.
+  intros Hfb. unfold take_from_source, gen_take_from_source. destruct fb as [fa|].
+  - change (gen_after_take_max ve (Some fa) false) with (gen_after_take_max ve (Some fa) true).
+    apply (exec_take_max_fb (Some fa) f ma mo stk k b ps tx ac Hfb).
+  - simpl. destruct (negb (String.eqb (fasset f) ma)); [reflexivity|]. destruct mo as [x|]; [|reflexivity].
+    destruct (take x f) as [[res rem]| |]; reflexivity.
+Qed.
+
+(* ---------- allotments ---------- *)
+Definition pden (p : portionexpr) : vval :=
+  match eval_portion e p with Specific q => XV (VPortion q) | Remaining => XRemaining end.
+
+Definition chk_portion (p : portionexpr) : bool :=
+  match p with PConst q => q_in_unit q | PVar x => has_ty te x TPortion | PRemaining => true end.
+
+Lemma denote_portion p : chk_portion p = true -> denote e (match gen_portion ve p with EIns (IApush r) => r | _ => RConst CRemaining end) = pden p.
+Proof.
+  destruct p as [q|x|]; simpl; intros H; try reflexivity.
+  destruct (denote_var _ _ (has_ty_lookup _ _ H)) as [v [H1 [H2 H3]]]. rewrite H3. unfold pden. simpl. rewrite H1.
+  destruct v; try discriminate. reflexivity.
+Qed.
+
+Lemma exec_push_portions l : forallb chk_portion l = true -> forall k stk b ps tx ac,
+  exec L (code (map (gen_portion ve) l) ++ k) (St stk b ps tx ac) = exec L k (St (rev (map pden l) ++ stk) b ps tx ac).
+Proof.
+  induction l as [|p tl IH]; intros Hc k stk b ps tx ac; [reflexivity|]. simpl in Hc. apply andb_prop in Hc. destruct Hc as [Hp Hc].
+  pose proof (denote_portion p Hp) as Hd. simpl map. destruct p as [q|x|]; simpl in Hd |- *; rewrite ?Hd; unfold with_stk; simpl;
+    rewrite (IH Hc); rewrite <- app_assoc; reflexivity.
+Qed.
+
+Lemma pop_portions_all l : forall stk, pop_portions (List.length l) (map pden l ++ stk) = Some (map (eval_portion e) l, stk).
+Proof.
+  induction l as [|p tl IH]; intros stk; [reflexivity|]. simpl. unfold pden at 1.
+  destruct (eval_portion e p) eqn:Ep; rewrite IH; reflexivity.
+Qed.
+
+Lemma chk_portions_each ps : chk_portions te ps = true -> forallb chk_portion ps = true.
+Proof.
+  unfold chk_portions. destruct ps as [|p0 r]; [discriminate|]. intros H. apply andb_prop in H. destruct H as [H _].
+  apply andb_prop in H. destruct H as [H _]. exact H.
+Qed.
+
+Lemma exec_allotment ps : chk_portions te ps = true -> forall k stk b pp tx ac,
+  exec L (code (gen_allotment ve ps) ++ k) (St stk b pp tx ac) =
+  do al <- make_allotment e ps; exec L k (St (XAllot al :: stk) b pp tx ac).
+Proof.
+  intros Hc k stk b pp tx ac. unfold gen_allotment. norm.
+  assert (forallb chk_portion (rev ps) = true) as Hr.
+  { apply forallb_forall. intros p Hp. apply in_rev in Hp. pose proof (chk_portions_each _ Hc) as Ha. rewrite forallb_forall in Ha. auto. }
+  rewrite (exec_push_portions (rev ps) Hr). rewrite map_rev, rev_involutive. simpl.
+  replace (Z.of_nat (List.length ps) <? 0) with false by (symmetry; apply Z.ltb_ge; lia).
+  rewrite Nat2Z.id. rewrite <- (map_length pden ps) at 1. rewrite map_length, pop_portions_all.
+  unfold make_allotment. destruct (new_allotment (map (eval_portion e) ps)); reflexivity.
+Qed.
+
+Definition mparts (a : string) (l : list Z) : list vval := map (fun y => XV (VMonetary a (Some y))) l.
+
+(* allotment source: per source i: VisitSource; Bump (i+1); TakeFromSource *)
+Lemma exec_alloc_sources A pa ma :
+  (forall k stk b ps tx ac, exec L (code pa ++ k) (St stk b ps tx ac) = exec L k (St (XV (VAsset A) :: stk) b ps tx ac)) ->
+  forall l ress parts, List.length parts = List.length l ->
+  forallb (fun ps => is_some (chk_source te false (snd ps))) l = true ->
+  forall k stk b pp tx ac,
+  exec L (code (gen_alloc_sources ve pa (Z.of_nat (List.length ress)) l) ++ k)
+       (St (map XFunding (rev ress) ++ mparts ma parts ++ stk) b pp tx ac) =
+  do (fs, b1) <- eval_alloc_sources e A ma l parts b;
+  exec L k (St (map XFunding (rev (ress ++ fs)) ++ stk) b1 pp tx ac).
+Proof.
+  intros Hpa. induction l as [|[p s] tl IH]; intros ress parts Hlen Hc k stk b pp tx ac.
+  - destruct parts; [|discriminate]. simpl. rewrite app_nil_r. reflexivity.
+  - destruct parts as [|x ptl]; [discriminate|]. simpl in Hlen, Hc. apply andb_prop in Hc. destruct Hc as [Hs Hc].
+    destruct (chk_source te false s) as [r0|] eqn:Es; [|discriminate].
+    simpl gen_alloc_sources. norm. rewrite (proj1 (exec_source A pa Hpa) _ _ _ Es). simpl eval_alloc_sources.
+    destruct (eval_source e A s b) as [[f b1]| |]; bnd; try reflexivity.
+    simpl. replace (Z.of_nat (List.length ress) + 1 <? 0) with false by (symmetry; apply Z.ltb_ge; lia).
+    replace (Z.to_nat (Z.of_nat (List.length ress) + 1)) with (List.length (XFunding f :: map XFunding (rev ress))) by (simpl; rewrite map_length, rev_length; lia).
+    change (XFunding f :: map XFunding (rev ress) ++ XV (VMonetary ma (Some x)) :: mparts ma ptl ++ stk)
+      with ((XFunding f :: map XFunding (rev ress)) ++ XV (VMonetary ma (Some x)) :: mparts ma ptl ++ stk).
+    rewrite bump_app. unfold with_stk. simpl. norm.
+    rewrite (exec_take_from_source (fallback_of s) f ma (Some x) _ _ b1 pp tx ac (proj1 chk_fallback _ _ _ Es)).
+    destruct (take_from_source e (fallback_of s) f ma (Some x) b1) as [[res b2]| |]; bnd; try reflexivity.
+    replace (Z.of_nat (List.length ress) + 1) with (Z.of_nat (List.length (ress ++ [res]))) by (rewrite app_length; simpl; lia).
+    change (XFunding res :: map XFunding (rev ress) ++ mparts ma ptl ++ stk) with ((XFunding res :: map XFunding (rev ress)) ++ mparts ma ptl ++ stk).
+    replace (XFunding res :: map XFunding (rev ress)) with (map XFunding (rev (ress ++ [res]))) by (rewrite rev_app_distr; reflexivity).
+    rewrite (IH (ress ++ [res]) ptl ltac:(lia) Hc). destruct (eval_alloc_sources e A ma tl ptl b2) as [[fs b3]| |]; bnd; try reflexivity.
+    rewrite <- app_assoc. reflexivity.
+Qed.
+
+(* ---------- destinations ---------- *)
+Lemma eval_dest_asset :
+  (forall d f b lf b1 ps, eval_dest e d f b = Ok (lf, b1, ps) -> fasset lf = fasset f) /\
+  (forall kd f b lf b1 ps, eval_kod e kd f b = Ok (lf, b1, ps) -> fasset lf = fasset f) /\
+  (forall l f kk b lf k1 b1 ps, eval_dmaxes e l f kk b = Ok (lf, k1, b1, ps) -> fasset lf = fasset f) /\
+  (forall l parts f b lf b1 ps, eval_dallots e l parts f b = Ok (lf, b1, ps) -> fasset lf = fasset f).
+Proof.
+  apply dest_mutind.
+  - intros a f b lf b1 ps H. simpl in H. dobind H rr Et. destruct rr as [res rem]. inv H. apply (take_spec _ _ _ _ Et).
+  - intros l IHl r IHr f b lf b1 ps H. simpl in H.
+    dobind H x1 E1. destruct x1 as [[[f1 kk] b2] ps1]. dobind H x2 E2. destruct x2 as [res rem].
+    dobind H x3 E3. destruct x3 as [[lf3 b3] ps3]. dobind H out E4. inv H.
+    destruct (assemble2 anyacc _ _ _ E4) as [_ [A2 _]]. destruct (take_spec _ _ _ _ E2) as [_ [_ [T3 _]]].
+    rewrite A2. simpl. rewrite T3. simpl. apply (IHl _ _ _ _ _ _ _ E1).
+  - intros l IHl f b lf b1 ps H. simpl in H. dobind H al Ea. apply (IHl _ _ _ _ _ _ H).
+  - intros f b lf b1 ps H. simpl in H. inv H. reflexivity.
+  - intros d IH f b lf b1 ps H. apply (IH _ _ _ _ _ H).
+  - intros f kk b lf k1 b1 ps H. simpl in H. inv H. reflexivity.
+  - intros m kd IHk tl IHt f kk b lf k1 b1 ps H. simpl in H.
+    dobind H mm Em. destruct mm as [ma mo]. destruct mo as [x|]; [|discriminate].
+    destruct (x <? 0); [discriminate|]. destruct (negb _); [discriminate|].
+    destruct (take_max x f) as [taken rem] eqn:Et. destruct (take_max_spec anyacc _ _ _ _ Et) as [_ [_ [T3 _]]].
+    dobind H x1 E1. destruct x1 as [[lf1 b2] ps1]. dobind H f1 E2. dobind H x2 E3. destruct x2 as [[[f2 k2] b3] ps2]. inv H.
+    destruct (assemble2 anyacc _ _ _ E2) as [_ [A2 _]]. rewrite (IHt _ _ _ _ _ _ _ E3). congruence.
+  - intros parts f b lf b1 ps H. simpl in H. inv H. reflexivity.
+  - intros p kd IHk tl IHt parts f b lf b1 ps H. simpl in H. destruct parts as [|x ptl]; [inv H; reflexivity|].
+    dobind H x0 E0. destruct x0 as [res rem]. destruct (take_spec _ _ _ _ E0) as [_ [_ [_ T4]]].
+    dobind H x1 E1. destruct x1 as [[lf1 b2] ps1]. dobind H f1 E2. dobind H x2 E3. destruct x2 as [[f2 b3] ps2]. inv H.
+    destruct (assemble2 anyacc _ _ _ E2) as [_ [A2 _]]. rewrite (IHt _ _ _ _ _ _ E3). congruence.
+Qed.
+
+Lemma exec_dest :
+  (forall d, chk_dest te d = true -> forall f k stk b pp tx ac,
+     exec L (code (gen_dest ve d) ++ k) (St (XFunding f :: stk) b pp tx ac) =
+     do (lf, b1, ps1) <- eval_dest e d f b; exec L k (St (XFunding lf :: stk) b1 (pp ++ ps1) tx ac)) /\
+  (forall kd, chk_kod te kd = true -> forall f k stk b pp tx ac,
+     exec L (code (gen_kod ve kd) ++ k) (St (XFunding f :: stk) b pp tx ac) =
+     do (lf, b1, ps1) <- eval_kod e kd f b; exec L k (St (XFunding lf :: stk) b1 (pp ++ ps1) tx ac)) /\
+  (forall l, chk_dmaxes te l = true -> forall f kk k stk b pp tx ac,
+     exec L (code (gen_dmaxes ve l) ++ k) (St (XFunding f :: XV (VMonetary (fasset f) (Some kk)) :: stk) b pp tx ac) =
+     do (f1, k1, b1, ps1) <- eval_dmaxes e l f kk b;
+     exec L k (St (XFunding f1 :: XV (VMonetary (fasset f) (Some k1)) :: stk) b1 (pp ++ ps1) tx ac)) /\
+  (forall l, chk_dallots te l = true -> forall parts f k stk b pp tx ac, List.length parts = dallots_len l ->
+     exec L (code (gen_dallots ve l) ++ k) (St (XFunding f :: mparts (fasset f) parts ++ stk) b pp tx ac) =
+     do (f2, b1, ps1) <- eval_dallots e l parts f b; exec L k (St (XFunding f2 :: stk) b1 (pp ++ ps1) tx ac)).
+Proof.
+  apply dest_mutind.
+  - (* account *) intros a Hc f k stk b pp tx ac. simpl in Hc. simpl. rewrite String.eqb_refl. simpl.
+    destruct (take (total f) f) as [[res rem]| |]; simpl; try reflexivity. rewrite (denote_acc _ Hc). simpl. reflexivity.
+  - (* in order *) intros l IHl r IHr Hc f k stk b pp tx ac. simpl in Hc. destruct l as [|m0 k0 l0] eqn:El; [discriminate|]. rewrite <- El in *.
+    apply andb_prop in Hc. destruct Hc as [Hc1 Hc2].
+    simpl gen_dest. norm. run. rewrite (IHl Hc1). simpl eval_dest.
+    destruct (eval_dmaxes e l f 0 b) as [[[[f1 k1] b1] ps1]| |] eqn:E1; bnd; try reflexivity.
+    pose proof (proj1 (proj2 (proj2 eval_dest_asset)) _ _ _ _ _ _ _ _ E1) as Ha.
+    run. rewrite Ha, String.eqb_refl. run.
+    destruct (take k1 (freverse f1)) as [[res rem]| |]; run; try reflexivity.
+    rewrite (IHr Hc2). destruct (eval_kod e r (freverse rem) b1) as [[[lf b2] ps2]| |]; bnd; try reflexivity.
+    run. rewrite vm_assemble2. destruct (assemble [lf; freverse res]); run; [|reflexivity|reflexivity].
+    rewrite app_assoc. reflexivity.
+  - (* allotment *) intros l IHl Hc f k stk b pp tx ac. simpl in Hc. apply andb_prop in Hc. destruct Hc as [Hp Hc].
+    simpl gen_dest. norm. run. rewrite (exec_allotment _ Hp). simpl eval_dest.
+    destruct (make_allotment e (dallots_portions l)) as [al| |] eqn:Ea; bnd; try reflexivity.
+    assert (List.length (allocate (total f) al) = dallots_len l) as Hlen.
+    { rewrite AllotProofs.allocate_length. unfold make_allotment in Ea.
+      destruct (new_allotment (map (eval_portion e) (dallots_portions l))) as [|a0] eqn:En; [discriminate|]. inv Ea.
+      unfold new_allotment in En. destruct (Nat.ltb 1 _); [discriminate|]. destruct (Qlt_le_dec _ _); [discriminate|].
+      inv En. rewrite !map_length. apply dallots_portions_len. }
+    run. replace (Z.of_nat (dallots_kods_len l) <? 0) with false by (symmetry; apply Z.ltb_ge; lia). rewrite Nat2Z.id.
+    assert (dallots_kods_len l = List.length (mparts (fasset f) (allocate (total f) al))) as Hk.
+    { unfold mparts. rewrite map_length, Hlen. clear. induction l; simpl; congruence. }
+    rewrite Hk. fold (mparts (fasset f) (allocate (total f) al)). rewrite bump_app. run.
+    apply (IHl Hc). assumption.
+  - intros _ f k stk b pp tx ac. simpl. rewrite app_nil_r. reflexivity.
+  - intros d IH Hc f k stk b pp tx ac. apply (IH Hc).
+  - intros _ f kk k stk b pp tx ac. simpl. rewrite app_nil_r. reflexivity.
+  - (* max *) intros m kd IHk tl IHt Hc f kk k stk b pp tx ac. simpl in Hc.
+    apply andb_prop in Hc. destruct Hc as [Hc Hc3]. apply andb_prop in Hc. destruct Hc as [Hc1 Hc2].
+    simpl gen_dmaxes. norm. rewrite (exec_mon m Hc1). simpl eval_dmaxes.
+    destruct (eval_mon e m) as [[ma mo]| |]; bnd; try reflexivity. run.
+    destruct mo as [x|]; [|reflexivity]. destruct (x <? 0); [reflexivity|].
+    destruct (negb (String.eqb (fasset f) ma)) eqn:Ena; [reflexivity|]. apply negb_false_iff, String.eqb_eq in Ena.
+    destruct (take_max x f) as [taken rem] eqn:Et. destruct (take_max_spec anyacc _ _ _ _ Et) as [_ [T2 [T3 _]]].
+    run. rewrite (IHk Hc2).
+    destruct (eval_kod e kd taken b) as [[[lf b1] ps1]| |] eqn:E1; bnd; try reflexivity.
+    pose proof (proj1 (proj2 eval_dest_asset) _ _ _ _ _ _ E1) as Ha.
+    run. rewrite Ha, T2, String.eqb_refl. run. rewrite vm_assemble2.
+    destruct (assemble [lf; rem]) as [f1| |] eqn:E2; run; try reflexivity.
+    destruct (assemble2 anyacc _ _ _ E2) as [_ [A2 _]].
+    replace (fasset f) with (fasset f1) by congruence. norm. rewrite (IHt Hc3).
+    destruct (eval_dmaxes e tl f1 (total lf + kk) b1) as [[[[f2 k2] b2] ps2]| |]; bnd; try reflexivity.
+    rewrite app_assoc. reflexivity.
+  - intros _ parts f k stk b pp tx ac Hl. simpl in Hl. destruct parts; [|discriminate]. simpl. rewrite app_nil_r. reflexivity.
+  - (* allotment part *) intros p kd IHk tl IHt Hc parts f k stk b pp tx ac Hl. simpl in Hc, Hl.
+    apply andb_prop in Hc. destruct Hc as [Hc1 Hc2]. destruct parts as [|x ptl]; [discriminate|].
+    simpl gen_dallots. norm. run. rewrite String.eqb_refl. run.
+    destruct (take x f) as [[res rem]| |] eqn:E0; run; try reflexivity.
+    destruct (take_spec _ _ _ _ E0) as [_ [_ [T3 T4]]]. norm. rewrite (IHk Hc1).
+    destruct (eval_kod e kd res b) as [[[lf b1] ps1]| |] eqn:E1; bnd; try reflexivity.
+    run. rewrite vm_assemble2. destruct (assemble [lf; rem]) as [f1| |] eqn:E2; run; try reflexivity.
+    destruct (assemble2 anyacc _ _ _ E2) as [_ [A2 _]].
+    replace (fasset f) with (fasset f1) by congruence. norm. rewrite (IHt Hc2) by (simpl in Hl; lia).
+    destruct (eval_dallots e tl ptl f1 b1) as [[[f2 b2] ps2]| |]; bnd; try reflexivity.
+    rewrite app_assoc. reflexivity.
+Qed.
 End Correct.
